@@ -9,6 +9,7 @@ import (
 	"io"
 	"net/http"
 	"strings"
+	"time"
 
 	"github.com/go-jose/go-jose/v3"
 	"go.opentelemetry.io/otel/trace"
@@ -313,6 +314,13 @@ func (f *Fosite) authorizeRequestFromPAR(ctx context.Context, r *http.Request, r
 
 	if err := storage.DeletePARSession(ctx, requestURI); err != nil {
 		return false, errorsx.WithStack(ErrServerError.WithWrap(err).WithDebug(err.Error()))
+	}
+
+	// the pushed authorization request context is only valid for its advertised lifetime
+	if session := parRequest.GetSession(); session != nil {
+		if exp := session.GetExpiresAt(PushedAuthorizeRequestContext); !exp.IsZero() && exp.Before(time.Now().UTC()) {
+			return false, errorsx.WithStack(ErrInvalidRequestURI.WithHint("The 'request_uri' has expired."))
+		}
 	}
 
 	// validate the clients match
